@@ -2047,6 +2047,10 @@ class Recipe:
             raise TypeError("Total quantity must be a str.")
         if ('concentration' in kwargs) + ('total_quantity' in kwargs) + ('quantity' in kwargs) != 2:
             raise ValueError("Must specify two values out of concentration, quantity, and total quantity.")
+        if self.locked:
+            raise RuntimeError("This recipe is locked.")
+        if isinstance(solvent, Container) and solvent.name not in self.results:
+            raise ValueError(f"Solvent {solvent.name} has not been previously declared for use.")
 
         solute_names = ', '.join(substance.name for substance in solute) if isinstance(solute, Iterable) else solute.name
         if name is None:
@@ -2088,6 +2092,11 @@ class Recipe:
             raise TypeError("Quantity must be a str.")
         if name and not isinstance(name, str):
             raise TypeError("Name must be a str.")
+
+        if self.locked:
+            raise RuntimeError("This recipe is locked.")
+        if source.name not in self.results:
+            raise ValueError(f"Source {source.name} has not been previously declared for use.")
 
         quantity_value, quantity_unit = Unit.parse_quantity(quantity)
         if quantity_value <= 0:
